@@ -37,7 +37,13 @@ ReadDoc(sg, cart, k, nb) ==
   IN [kind |-> "read", D |-> [sg |-> sg, cart |-> cart, atoms |-> [i \in 1..3 |-> at(i)],
                               bonds |-> SubSeq(<<<<"C1", "O1">>, <<"C2", "O1">>>>, 1, nb)]]
 
-Init == \/ \E f \in FragNames, cn \in {"ortho", "tri1", "tri2"}, s \in {"in", "out", "edge"}, o \in {"fract", "cart"} :
+\* twelve atoms, four of each of three elements (site labels with two digits do not occur, but element counters above a
+\* few do), and a chain of twenty-three: C1 ... C8
+RoundTripBig(n, cn, o) ==
+  [kind |-> "roundtrip", K |-> [BigChain(n, 0) EXCEPT !.pos = [i \in 1..n |-> <<3 * i, (7 * i) % 80, (11 * i + 5) % 80>>]],
+   cell |-> cn, cellpar |-> CellPar(cn), out |-> o]
+Init == \/ \E n \in {12, 33}, cn \in {"ortho", "tri1"}, o \in {"fract", "cart"} : (o = "cart" => cn = "ortho") /\ c = RoundTripBig(n, cn, o)
+        \/ \E f \in FragNames, cn \in {"ortho", "tri1", "tri2"}, s \in {"in", "out", "edge"}, o \in {"fract", "cart"} :
              (o = "cart" => cn = "ortho") /\ c = RoundTrip(f, cn, s, o)
         \/ \E sg \in SGs, cart \in {"yes", "no"}, k \in 0..8, nb \in 0..2 : c = ReadDoc(sg, cart, k, nb)
 Next == UNCHANGED c
